@@ -1,6 +1,7 @@
 import Driver.Util
 import GrVerif.Model.Action
 import GrVerif.Model.Lines
+import GrVerif.Gen.Justify
 namespace Driver.Heap
 open GrVerif.Vm GrVerif.Seg GrVerif.Action Driver
 
@@ -66,6 +67,11 @@ def step (line : String) : String :=
 `d<j>` delLineEnd(j-th sentinel), `F<k>` / `L<k>` set m_first / m_last.  Slots are named by creation order. -/
 def stepLines (line : String) : String :=
   match words line with
+  | ["jsize", lv] =>
+    -- `SlotJustify::size_of(levels)`, `sizeof(SlotJustify)`, `sizeof(SlotJustify *)` as `Gen/Justify.lean` has them
+    (match lv.toNat? with
+     | some k => s!"size_of={GrVerif.Gen.Justify.sizeOf k} rec={GrVerif.Gen.Justify.sizeofSlotJustify} ptr={GrVerif.Gen.Justify.ptrSize} params={GrVerif.Gen.Justify.NUMJUSTPARAMS}"
+     | none => "bad-op")
   | "lines" :: n :: ops =>
     match n.toNat? with
     | none => "bad-op"
